@@ -22,7 +22,8 @@ def attr(el, name):
 
 
 def is_iframe(el):
-    return lower(el.name) == 'iframe'
+    # only an HTML iframe is a document boundary (a foreign element that happens to be called iframe is not)
+    return lower(el.name) == 'iframe' and getattr(el, 'namespace', None) in (None, 'http://www.w3.org/1999/xhtml')
 
 
 def own_doc_parent(el):
